@@ -114,7 +114,16 @@ struct Engine : MemView {
         int prev_state = -1;
         bool draining = false;
 
-        Engine(const Plan &p, const RunOpts &o) : plan(p), opts(o), mon(p, this), fillrng(p.fill) {}
+        Engine(const Plan &p, const RunOpts &o) : plan(p), opts(o), mon(p, this), fillrng(p.fill)
+        {
+                // twin runs with replaced initial contents: the model starts from the same contents
+                size_t flat = 0;
+                if (!o.override_init.empty())
+                        for (size_t c = 0; c < p.cmds.size(); c++)
+                                for (size_t v = 0; v < p.cmds[c].vars.size(); v++, flat++)
+                                        if (flat < o.override_init.size())
+                                                mon.m.vals[c][v] = o.override_init[flat];
+        }
         ~Engine();
 
         // memory
@@ -126,6 +135,7 @@ struct Engine : MemView {
 
         // lockset
         bool ls_on = false;
+        size_t arena_used = 0;
         void ls_protect(bool on);
 
         // api
@@ -158,12 +168,13 @@ Engine *E = nullptr;
 
 // ------------------------------------------------------------------ lockset by page protection
 
-struct Region {
-        unsigned char *p;
-        size_t len;
-};
-static Region g_prot[4];
-static int g_nprot = 0;
+// One persistent arena per process: page 0 ends with the three configuration pointers of the
+// object, everything mutable (rest of the object, working buffers) follows and is PROT_NONE
+// whenever the simulated mutex is not held.
+static unsigned char *g_arena = nullptr;
+static size_t g_arena_len = 0;
+static unsigned char *g_prot_p = nullptr;
+static size_t g_prot_len = 0;
 static volatile sig_atomic_t g_ls_fault = 0;
 static void *volatile g_ls_addr = nullptr;
 static struct sigaction g_old_segv;
@@ -173,16 +184,14 @@ static void segv_handler(int sig, siginfo_t *si, void *ctx)
 {
         (void)ctx;
         unsigned char *a = (unsigned char *)si->si_addr;
-        for (int i = 0; i < g_nprot; i++)
-                if (a >= g_prot[i].p && a < g_prot[i].p + g_prot[i].len) {
-                        // access to parser state without the lock: remember it and let the run continue
-                        g_ls_fault = g_ls_fault + 1;
-                        if (!g_ls_addr)
-                                g_ls_addr = a;
-                        for (int j = 0; j < g_nprot; j++)
-                                mprotect(g_prot[j].p, g_prot[j].len, PROT_READ | PROT_WRITE);
-                        return;
-                }
+        if (g_prot_p && a >= g_prot_p && a < g_prot_p + g_prot_len) {
+                // access to parser state without the lock: remember it and let the run continue
+                g_ls_fault = g_ls_fault + 1;
+                if (!g_ls_addr)
+                        g_ls_addr = a;
+                mprotect(g_prot_p, g_prot_len, PROT_READ | PROT_WRITE);
+                return;
+        }
         // not ours: restore the previous disposition and re-raise
         sigaction(sig, &g_old_segv, nullptr);
         raise(sig);
@@ -193,8 +202,7 @@ void Engine::ls_protect(bool on)
         if (!ls_on)
                 return;
         es.lockset_switches++;
-        for (int i = 0; i < g_nprot; i++)
-                mprotect(g_prot[i].p, g_prot[i].len, on ? PROT_NONE : (PROT_READ | PROT_WRITE));
+        mprotect(g_prot_p, g_prot_len, on ? PROT_NONE : (PROT_READ | PROT_WRITE));
 }
 
 // ------------------------------------------------------------------ memory
@@ -204,15 +212,12 @@ Block Engine::alloc(size_t size, bool protect_candidate)
         Block b;
         b.size = size;
         if (protect_candidate && ls_on) {
-                size_t pg = (size_t)sysconf(_SC_PAGESIZE);
-                b.maplen = ((size + pg - 1) / pg + 1) * pg;
-                b.base = (unsigned char *)mmap(nullptr, b.maplen, PROT_READ | PROT_WRITE, MAP_PRIVATE | MAP_ANONYMOUS, -1, 0);
-                assert(b.base != MAP_FAILED);
-                b.p = b.base;
+                arena_used = (arena_used + 15) & ~(size_t)15;
+                b.base = b.p = g_arena + arena_used;
+                arena_used += size ? size : 1;
                 b.mapped = true;
                 for (size_t i = 0; i < size; i++)
                         b.p[i] = (unsigned char)fillrng.next();
-                blocks.push_back(b);
                 return b;
         }
         b.base = (unsigned char *)malloc(size + 2 * GUARD + (GUARD ? 0 : 0));
@@ -248,16 +253,13 @@ bool Engine::guards_ok(std::string &which)
 Engine::~Engine()
 {
         if (ls_on) {
-                for (int i = 0; i < g_nprot; i++)
-                        mprotect(g_prot[i].p, g_prot[i].len, PROT_READ | PROT_WRITE);
-                g_nprot = 0;
+                mprotect(g_prot_p, g_prot_len, PROT_READ | PROT_WRITE);
+                g_prot_p = nullptr;
+                g_prot_len = 0;
         }
-        for (auto &b : blocks) {
-                if (b.mapped)
-                        munmap(b.base, b.maplen);
-                else
+        for (auto &b : blocks)
+                if (!b.mapped)
                         free(b.base);
-        }
 }
 
 static char *dup_str(Engine *e, const std::string &s)
@@ -585,6 +587,20 @@ static int m_unlock(void)
 void Engine::materialise()
 {
         ls_on = opts.lockset && plan.mutex && GUARD != 0;
+        size_t pg = (size_t)sysconf(_SC_PAGESIZE);
+        if (ls_on) {
+                size_t need = pg + sizeof(struct cat_object) + (size_t)plan.buf_size + (size_t)plan.ubuf_size + 256;
+                if (!g_arena) {
+                        g_arena_len = 48 * pg;
+                        g_arena = (unsigned char *)mmap(nullptr, g_arena_len, PROT_READ | PROT_WRITE, MAP_PRIVATE | MAP_ANONYMOUS, -1, 0);
+                        if (g_arena == MAP_FAILED)
+                                g_arena = nullptr;
+                }
+                if (!g_arena || need > g_arena_len)
+                        ls_on = false;
+                else
+                        arena_used = pg - offsetof(struct cat_object, index) + sizeof(struct cat_object);
+        }
         size_t n = plan.cmds.size();
         vars.resize(n);
         var_mem.resize(n);
@@ -690,25 +706,17 @@ void Engine::materialise()
         mtx.lock = m_lock;
         mtx.unlock = m_unlock;
         if (ls_on) {
-                // object placed so that its three configuration pointers end one page and all
-                // mutable fields start the next one
-                size_t pg = (size_t)sysconf(_SC_PAGESIZE);
+                // object placed so that its three configuration pointers end page 0 and all mutable
+                // fields start page 1; the buffers were carved right behind it
                 size_t off = offsetof(struct cat_object, index);
-                size_t len = 2 * pg + ((sizeof(struct cat_object) + pg - 1) / pg) * pg;
-                objblk.base = (unsigned char *)mmap(nullptr, len, PROT_READ | PROT_WRITE, MAP_PRIVATE | MAP_ANONYMOUS, -1, 0);
-                assert(objblk.base != MAP_FAILED);
+                objblk.base = g_arena;
                 objblk.mapped = true;
-                objblk.maplen = len;
-                objblk.p = objblk.base + pg - off;
+                objblk.p = g_arena + pg - off;
                 objblk.size = sizeof(struct cat_object);
                 for (size_t i = 0; i < sizeof(struct cat_object); i++)
                         objblk.p[i] = (unsigned char)fillrng.next();
-                blocks.push_back(objblk);
-                g_nprot = 0;
-                g_prot[g_nprot++] = Region{objblk.base + pg, len - pg};
-                g_prot[g_nprot++] = Region{bufblk.base, bufblk.maplen};
-                if (!plan.shared)
-                        g_prot[g_nprot++] = Region{ubufblk.base, ubufblk.maplen};
+                g_prot_p = g_arena + pg;
+                g_prot_len = ((arena_used - pg + pg - 1) / pg) * pg;
                 if (!g_segv_installed) {
                         struct sigaction sa;
                         memset(&sa, 0, sizeof sa);
@@ -1125,7 +1133,7 @@ void Engine::exec(const Op &o)
                         int st = service_once();
                         if (st == CAT_STATUS_OK && rx_pos >= rx.size())
                                 break;
-                        if (mon.model_ok() && mon.held_unreleased() && !mon.events_pending() && !mon.unit_open() && rx_mode == 0 && tx_mode == 0 && i > 8)
+                        if (mon.model_ok() && mon.held_unreleased() && !mon.events_pending() && !mon.unit_open() && i > 8)
                                 break;
                 }
                 break;
